@@ -519,6 +519,7 @@ def to_coq(case, obs):
 
 class H(Harness):
     ID = 'C19'
+    ANCHOR_FILES = ['epydemic/adddelete.py', 'epydemic/process.py', 'epydemic/compartmentedmodel.py', 'epydemic/stochasticdynamics.py']
     TIE_IMPORT = 'From EpyV Require Import Model.Kernel Model.Loci Model.Compart Model.AddDelete Tie.C19.\nOpen Scope Q_scope.'
     CHECK_FN = 'EpyV.Tie.C19.check_case'
     QUICK_N = 420
